@@ -83,11 +83,11 @@ XCURVES = {"K61": ("weier", 61, 0, 7, 2, 25), "P61": ("weier", 61, 58, 3, 1, 1),
 
 POINTS = ["k256", "p256", "pallas", "vesta", "ed25519", "ed25519-prime", "x25519", "x25519-prime", "bls-g1", "bls-g2"]
 FIELDS = ["k256-scalar", "k256-base", "p256-scalar", "p256-base", "ed25519-scalar", "ed25519-base", "pasta-fp", "pasta-fq",
-          "bls-scalar", "bls-g1-base", "bls-gt"]
+          "bls-scalar", "bls-g1-base", "bls-g2-base", "bls-gt"]
 # one driver process (and one token table) per job
 JOBS = {"k256": ["k256", "k256-scalar", "k256-base"], "p256": ["p256", "p256-scalar", "p256-base"],
         "pasta": ["pallas", "vesta", "pasta-fp", "pasta-fq"], "ed25519": ["ed25519", "ed25519-prime", "ed25519-scalar", "ed25519-base"],
-        "x25519": ["x25519", "x25519-prime"], "bls-g1": ["bls-g1", "bls-scalar", "bls-g1-base"], "bls-g2": ["bls-g2"], "bls-gt": ["bls-gt"]}
+        "x25519": ["x25519", "x25519-prime"], "bls-g1": ["bls-g1", "bls-scalar", "bls-g1-base"], "bls-g2": ["bls-g2", "bls-g2-base"], "bls-gt": ["bls-gt"]}
 
 
 def mc_cfg(c, f, fam):
